@@ -363,6 +363,8 @@ func runC12(c *Ctx) {
 	}
 	c.floor(rule, 3)
 	c12Expiry(c, "table-semantics")
+	// the method the transaction key and the BYE/INVITE tests rest on comes from the CSeq header (rule shared with C14/C17)
+	ruleTokenSplitting(c, "register", "ParseCSeq")
 }
 
 // c12Expiry: an entry of the client transport table leaves it by age alone. TCPClientTransport.IsExpired is true only
